@@ -409,7 +409,10 @@ def describe(ev):
     if ev.get("ev") != "op":
         return json.dumps(ev)[:300]
     r = ev.get("res", {})
-    return "%s@%s id=%s val=%s -> %s" % (ev.get("op"), ev.get("loc"), ev.get("id"),
+    i = ev.get("id") or ""
+    if len(i) > 60:
+        i = "%s...(%d characters)" % (i[:20], len(i))
+    return "%s@%s id=%s val=%s -> %s" % (ev.get("op"), ev.get("loc"), i,
                                           json.dumps(dec(ev.get("val")))[:160], r.get("c"))
 
 
